@@ -159,6 +159,17 @@ class Compound:
 
 
 @dataclass
+class UnionEl:
+    """elements typed with a union of a model and primitives (UnionNode: candidates are replayed and scored)."""
+
+    class Meta:
+        namespace = NS_B
+
+    u: Optional[Union[Item, int, bool]] = field(default=None, metadata={"type": "Element"})
+    us: list[Union[Item, int]] = field(default_factory=list, metadata={"type": "Element", "namespace": NS_A})
+
+
+@dataclass
 class Wild:
     class Meta:
         namespace = NS_A
@@ -190,8 +201,8 @@ class Order:
     any_attr: Optional[object] = field(default=None, metadata={"type": "Element", "name": "anyType"})
 
 
-ROOTS = [Leaf, Item, Holder, QNames, Prims, Seq, Compound, Wild, Mixed, Order]
-ALL = [Leaf, Item, Base, Derived, Holder, QNames, Prims, Seq, Compound, Wild, Mixed, Order]
+ROOTS = [Leaf, Item, Holder, QNames, Prims, Seq, Compound, UnionEl, Wild, Mixed, Order]
+ALL = [Leaf, Item, Base, Derived, Holder, QNames, Prims, Seq, Compound, UnionEl, Wild, Mixed, Order]
 
 HOSTILE_MAPS: list[dict | None] = [
     None,
